@@ -349,6 +349,9 @@ def method_call(self, name, e, st, spec):
         cls = o["$cls"]
         if cls == "MapOfSets":
             return map_method(self, recv, o, m, e, st, spec)
+        if isinstance(o.get(m), Func):
+            # a function-valued field (d_mat): application of that pure function
+            return self.apply_func(o[m], [self.ev(a, st, spec) for a in e.args], st, spec, e)
         q = self.method_contract(cls, m)
         if q is not None:
             if spec:
@@ -774,6 +777,12 @@ def attr_model(self, e, base, st, spec):
         o = _heap(st, base)
         if e.attr in o:
             return o[e.attr]
+    if isinstance(base, Opt) and isinstance(base.val, Ref) and spec:
+        # in a specification x.f on an Optional[object] x means some(x).f (the clause is about the object when there is one)
+        base = base.val
+        o = _heap(st, base)
+        if e.attr in o:
+            return o[e.attr]
     if isinstance(base, UnitV):
         if e.attr == "segment":
             return base.segment
@@ -1076,6 +1085,8 @@ def modifies_set(self, mods, env, heap):
         v = env.get(parts[0])
         if v is None:
             raise EngineError(f"modifies: unknown name {parts[0]}")
+        if isinstance(v, Opt) and isinstance(v.val, Ref):
+            v = v.val          # an Optional[object] named in a modifies clause: the object, when there is one
         for p in parts[1:-1]:
             v = heap[v.oid][p]
         if len(parts) == 1:
